@@ -18,8 +18,10 @@ What is stated where (clause → theorem):
   `stored_signature_bytes_verify_as_stored`, `batch_confirms_verify`;
 * "under the key its validator had registered for that chain when it signed": `signature_provenance`
   (messages) and `batch_confirm_provenance` (batches) — history-level: the `sign` / `confirm` operation
-  that stored it is in the history, it answered `ok`, and the key / eth account is the one the registry
-  held for that validator on the target chain in the state that operation ran in;
+  that stored it is in the history, it answered `ok`, and the key / eth account is what the executable
+  look-up (`signingKey` = `GetSigningKey`, `ethAddrOf` = `GetEthAddressByValidator`) returned on the
+  registry of the state that operation ran in; `registry_wellformed_all_histories` /
+  `signing_key_identifies_validator` (one registry entry per validator, key bytes identify the validator);
   `stored_signature_valid_under_key_registered_when_signed` and
   `stored_confirm_valid_under_account_registered_when_confirmed` put the two halves together;
 * "a validator or key at most once per item": `validator_and_key_once`, `account_once_per_item`,
@@ -28,7 +30,17 @@ What is stated where (clause → theorem):
   `bytes_change_only_by_election` (the only operation that changes signing bytes is the end-block
   election, it changes gas / fees only), `core_fields_never_change` (kind, payload, sender, assignee,
   relayer address, estimate flag are fixed at enqueue time — over whole histories),
-  `no_signature_survives_bytes_change` (history-level), `batch_checkpoint_change_clears`.
+  `signatures_after_bytes_change` / `confirms_after_checkpoint_change` (history-level: same id / nonce at two
+  points of a history with different bytes ⇒ an election / re-issue step in between emptied the list, and every
+  signature stored afterwards was added after that step), `no_signature_survives_bytes_change`,
+  `no_confirm_survives_checkpoint_change` (corollaries), `batch_checkpoint_change_clears`;
+* what is signed BEFORE an election (there is no gate): `signatures_before_election_sign_the_defaults`,
+  `confirms_before_estimate_confirm_the_default`, `unelected_message_is_signable`.
+
+ABSTRACTIONS: one queue of one target chain (`targetChain = 0`; sibling chains exist only as registry
+entries), messages of the four kinds of `Kind` (compass deployments, whose signing bytes contain neither
+relayer nor estimate, are C05's subject), the relayer trigger of clause 3 cannot be exercised (no reachable
+operation rewrites the relayer: `core_fields_never_change`, `reassignDead_would_violate`).
 
 EXTERNAL ASSUMPTIONS (not proved here): the signing bytes are a keccak digest of an ABI encoding; the
 model uses the tuple `SignBytes` / `BBytes` of the encoded fields instead, i.e. it assumes that two
@@ -1142,6 +1154,146 @@ theorem bsorted_uniq {bs : List Batch} {n : Nat} (h : BSorted bs n) {a b : Batch
       · exact ih hxs a ha' b hb' hab
   exact aux bs h.1 a ha b hb hab
 
+/-! #### the registry (`SetExternalChainInfoState`) -/
+
+/-- registry well-formedness: one entry per validator; two different validators never hold, on the
+same chain, the same address string or the same key bytes (the collision rule of
+`SetExternalChainInfoState`, which compares strings / bytes verbatim) -/
+def RegsOk (regs : List (Nat × List Account)) : Prop :=
+  (regs.map (·.1)).Nodup ∧
+  ∀ r1 ∈ regs, ∀ r2 ∈ regs, r1.1 ≠ r2.1 → ∀ a1 ∈ r1.2, ∀ a2 ∈ r2.2, a1.chain = a2.chain →
+    a1.addr ≠ a2.addr ∧ a1.raw ≠ a2.raw
+
+theorem any_key_false {α} {l : List (Nat × α)} {k : Nat} (h : ¬ l.any (fun p => p.1 == k) = true) :
+    ∀ z ∈ l, z.1 ≠ k := by
+  intro z hz e
+  apply h
+  exact List.any_eq_true.mpr ⟨z, hz, by simp [e]⟩
+
+theorem mem_upsert {α} {l : List (Nat × α)} {k : Nat} {v : α} {p : Nat × α} (h : p ∈ upsert l k v) :
+    p = (k, v) ∨ (p ∈ l ∧ p.1 ≠ k) := by
+  unfold upsert at h
+  split at h
+  · obtain ⟨z, hz, hzp⟩ := List.mem_map.mp h
+    by_cases hk : z.1 = k
+    · simp [hk] at hzp
+      exact Or.inl hzp.symm
+    · simp [hk] at hzp
+      subst hzp
+      exact Or.inr ⟨hz, hk⟩
+  · rename_i hany
+    rcases List.mem_append.mp h with hl | hl
+    · exact Or.inr ⟨hl, any_key_false hany p hl⟩
+    · exact Or.inl (by simpa using hl)
+
+theorem upsert_keys_nodup {α} {l : List (Nat × α)} {k : Nat} {v : α} (h : (l.map (·.1)).Nodup) :
+    ((upsert l k v).map (·.1)).Nodup := by
+  unfold upsert
+  split
+  · have : (l.map (fun p => if (p.1 == k) = true then (k, v) else p)).map (·.1) = l.map (·.1) := by
+      rw [List.map_map]
+      apply List.map_congr_left
+      intro z _
+      by_cases hz : z.1 = k <;> simp [hz]
+    rw [this]; exact h
+  · rename_i hany
+    rw [List.map_append]
+    refine nodup_append_singleton h ?_
+    intro hm
+    obtain ⟨z, hz, hzk⟩ := List.mem_map.mp hm
+    exact any_key_false hany z hz hzk
+
+theorem not_collides {regs : List (Nat × List Account)} {val : Nat} {accts : List Account}
+    (h : ¬ collides regs val accts = true) :
+    ∀ r ∈ regs, r.1 ≠ val → ∀ e ∈ r.2, ∀ n ∈ accts, n.chain = e.chain → n.addr ≠ e.addr ∧ n.raw ≠ e.raw := by
+  intro r hr hne e he n hn hc
+  constructor
+  · intro ha
+    apply h
+    unfold collides
+    refine List.any_eq_true.mpr ⟨r, hr, ?_⟩
+    simp only [Bool.and_eq_true, bne_iff_ne, ne_eq]
+    refine ⟨hne, List.any_eq_true.mpr ⟨e, he, List.any_eq_true.mpr ⟨n, hn, ?_⟩⟩⟩
+    simp [hc, ha]
+  · intro ha
+    apply h
+    unfold collides
+    refine List.any_eq_true.mpr ⟨r, hr, ?_⟩
+    simp only [Bool.and_eq_true, bne_iff_ne, ne_eq]
+    refine ⟨hne, List.any_eq_true.mpr ⟨e, he, List.any_eq_true.mpr ⟨n, hn, ?_⟩⟩⟩
+    simp [hc, ha]
+
+theorem regsOk_register (s : State) (val : Nat) (accts : List Account) (h : RegsOk s.regs) :
+    RegsOk (register s val accts).1.regs := by
+  unfold register
+  split
+  · exact h
+  · rename_i hcol
+    have hnc := not_collides hcol
+    refine ⟨upsert_keys_nodup h.1, ?_⟩
+    intro r1 h1 r2 h2 hne a1 ha1 a2 ha2 hc
+    rcases mem_upsert h1 with rfl | ⟨h1, hk1⟩ <;> rcases mem_upsert h2 with rfl | ⟨h2, hk2⟩
+    · exact absurd rfl hne
+    · obtain ⟨x, y⟩ := hnc r2 h2 hk2 a2 ha2 a1 ha1 hc
+      exact ⟨x, y⟩
+    · obtain ⟨x, y⟩ := hnc r1 h1 hk1 a1 ha1 a2 ha2 hc.symm
+      exact ⟨fun e => x e.symm, fun e => y e.symm⟩
+    · exact h.2 r1 h1 r2 h2 hne a1 ha1 a2 ha2 hc
+
+theorem regsOk_apply (s : State) (op : Op) (h : RegsOk s.regs) : RegsOk (apply s op).regs := by
+  have hf := (frame_regs_env s op).1
+  cases op with
+  | register v a => exact regsOk_register s v a h
+  | setEnv e => simp only at hf; rw [hf]; exact h
+  | put k c sd a r q => simp only at hf; rw [hf]; exact h
+  | enqueue k c sd m t => simp only at hf; rw [hf]; exact h
+  | sign id v a b f w => simp only at hf; rw [hf]; exact h
+  | addEstimate id v x => simp only at hf; rw [hf]; exact h
+  | endBlock => simp only at hf; rw [hf]; exact h
+  | setPublic id => simp only at hf; rw [hf]; exact h
+  | setError id => simp only at hf; rw [hf]; exact h
+  | addEvidence id v hh => simp only at hf; rw [hf]; exact h
+  | remove id => simp only at hf; rw [hf]; exact h
+  | putBatch n c r => simp only at hf; rw [hf]; exact h
+  | confirm n v a b f w => simp only at hf; rw [hf]; exact h
+  | updateBatchGas n g => simp only at hf; rw [hf]; exact h
+
+/-- the nonce counter never goes down -/
+theorem lastNonce_mono (s : State) (op : Op) : s.lastNonce ≤ (apply s op).lastNonce := by
+  have hf := frame_batches s op
+  cases op with
+  | putBatch n c r =>
+    simp only [apply, putBatch]
+    split
+    · exact Nat.le_refl _
+    · simp only; omega
+  | confirm n v a b f w =>
+    simp only [apply, confirm, confirmWith]
+    repeat' split
+    all_goals exact Nat.le_refl _
+  | updateBatchGas n g =>
+    simp only [apply, updateBatchGas]
+    repeat' split
+    all_goals exact Nat.le_refl _
+  | setEnv e => simp only at hf; rw [hf.2]; exact Nat.le_refl _
+  | register v a => simp only at hf; rw [hf.2]; exact Nat.le_refl _
+  | put k c sd a r q => simp only at hf; rw [hf.2]; exact Nat.le_refl _
+  | enqueue k c sd m t => simp only at hf; rw [hf.2]; exact Nat.le_refl _
+  | sign id v a b f w => simp only at hf; rw [hf.2]; exact Nat.le_refl _
+  | addEstimate id v x => simp only at hf; rw [hf.2]; exact Nat.le_refl _
+  | endBlock => simp only at hf; rw [hf.2]; exact Nat.le_refl _
+  | setPublic id => simp only at hf; rw [hf.2]; exact Nat.le_refl _
+  | setError id => simp only at hf; rw [hf.2]; exact Nat.le_refl _
+  | addEvidence id v hh => simp only at hf; rw [hf.2]; exact Nat.le_refl _
+  | remove id => simp only at hf; rw [hf.2]; exact Nat.le_refl _
+
+theorem lastNonce_mono_foldl (post : List Op) : ∀ s : State, s.lastNonce ≤ (post.foldl apply s).lastNonce := by
+  induction post with
+  | nil => intro s; exact Nat.le_refl _
+  | cons op rest ih => intro s; exact Nat.le_trans (lastNonce_mono s op) (ih _)
+
+theorem bbytes_addConfirm (b : Batch) (c : BConfirm) : bbytes (addConfirm b c) = bbytes b := rfl
+
 end Lemmas
 
 /-! ## Property theorems -/
@@ -1262,32 +1414,38 @@ theorem stored_signers_are_real (ops : List Op) :
 /-- **key_registered_when_signed** (clause 1, one step).
 Across one operation a stored signature is either inherited from the same item, or it was added by
 this very operation, a `sign` by that validator that answered `ok`, and its key is what `GetSigningKey`
-returned in the state the operation ran in: the key bytes of an account `a` the validator had registered
-on the queue's chain under the address it claimed.  Nothing else ever writes a signature.
+returned in the state the operation ran in (`signingKey … = some sg.key`, the executable look-up itself):
+the key bytes of an account `a` the validator had registered on the queue's chain under the address it
+claimed.  Nothing else ever writes a signature.
 (`signature_provenance` is the lift to whole histories.) -/
 theorem key_registered_when_signed (ops : List Op) (op : Op) :
     ∀ it' ∈ (run (ops ++ [op])).queue, ∀ sg ∈ it'.sigs,
       (∃ it ∈ (run ops).queue, it.id = it'.id ∧ sg ∈ it.sigs) ∨
       (op = .sign it'.id sg.val sg.addr sg.by_ sg.for_ sg.wire ∧
         (sign (run ops) it'.id sg.val sg.addr sg.by_ sg.for_ sg.wire).2 = .ok ∧
+        signingKey (run ops).regs sg.val sg.addr = some sg.key ∧
         ∃ r ∈ (run ops).regs, ∃ a ∈ r.2, r.1 = sg.val ∧ a.chain = targetChain ∧ a.addr = sg.addr ∧ a.raw = sg.key) := by
   intro it' hit' sg hsg
   rw [run_snoc] at hit'
   rcases step_sigs (run ops) (invariant_all_histories ops) op it' hit' sg hsg with h | ⟨h1, h2, h3⟩
   · exact Or.inl h
-  · exact Or.inr ⟨h1, h2, signingKey_mem h3⟩
+  · exact Or.inr ⟨h1, h2, h3, signingKey_mem h3⟩
 
 /-- **signature_provenance** (clause 1, "under the … key its validator had registered for that chain
 *when it signed*" — over whole histories).  For every signature `sg` stored with a message `it` in the
 state reached by ANY history `ops`, the history splits as `pre ++ sign … :: post` where the `sign`
 operation carries exactly the stored validator, claimed address, signer, signed bytes and byte form, it
-answered `ok` in the state `run pre` it ran in, and the stored key bytes `sg.key` are the key bytes of an
-account `a` that validator held in the registry of `run pre` on the queue's chain under the claimed
-address — whatever was registered, re-registered or rotated before or afterwards. -/
+answered `ok` in the state `run pre` it ran in, and the stored key bytes `sg.key` are what the executable
+look-up `GetSigningKey` (`signingKey`) returned on the registry of `run pre` for that validator and claimed
+address — the key bytes of an account `a` that validator held there on the queue's chain under the claimed
+address — whatever was registered, re-registered or rotated before or afterwards.  (The registry has one
+entry per validator and no two validators share key bytes on a chain: `registry_wellformed_all_histories`,
+`signing_key_identifies_validator`.) -/
 theorem signature_provenance (ops : List Op) :
     ∀ it ∈ (run ops).queue, ∀ sg ∈ it.sigs,
       ∃ pre post, ops = pre ++ Op.sign it.id sg.val sg.addr sg.by_ sg.for_ sg.wire :: post ∧
         (sign (run pre) it.id sg.val sg.addr sg.by_ sg.for_ sg.wire).2 = .ok ∧
+        signingKey (run pre).regs sg.val sg.addr = some sg.key ∧
         ∃ r ∈ (run pre).regs, ∃ a ∈ r.2, r.1 = sg.val ∧ a.chain = targetChain ∧ a.addr = sg.addr ∧ a.raw = sg.key := by
   induction ops using snoc_induction with
   | h0 => intro it hit; simp [run] at hit
@@ -1309,11 +1467,33 @@ theorem stored_signature_valid_under_key_registered_when_signed (ops : List Op) 
         ∃ r ∈ (run pre).regs, ∃ a ∈ r.2, r.1 = sg.val ∧ a.chain = targetChain ∧ a.addr = sg.addr ∧
           sg.for_ = bytesOf it ∧ sg.by_ = canon a.raw ∧ a.raw % 4 = 0 ∧ sg.wire.strict = true := by
   intro it hit sg hsg
-  obtain ⟨pre, post, he, _, r, hr, a, ha, h1, h2, h3, h4⟩ := signature_provenance ops it hit sg hsg
+  obtain ⟨pre, post, he, _, _, r, hr, a, ha, h1, h2, h3, h4⟩ := signature_provenance ops it hit sg hsg
   obtain ⟨v1, v2, v3⟩ := stored_signatures_verify ops it hit sg hsg
   refine ⟨pre, post, he, r, hr, a, ha, h1, h2, h3, v1, ?_, ?_, stored_signature_bytes_verify_as_stored ops it hit sg hsg⟩
   · rw [h4]; exact v2
   · rw [h4]; exact v3
+
+/-- **registry_wellformed_all_histories** (what "the key its validator had registered" refers to).  In every
+reachable state the external-account registry has exactly one entry per validator, and two different
+validators never hold, on the same chain, the same address string or the same key bytes — the collision rule
+of `SetExternalChainInfoState`, as an invariant over all histories of registrations and re-registrations. -/
+theorem registry_wellformed_all_histories (ops : List Op) : RegsOk (run ops).regs := by
+  induction ops using snoc_induction with
+  | h0 => exact ⟨by simp [run], by intro r1 h1; simp [run] at h1⟩
+  | hs ops op ih => rw [run_snoc]; exact regsOk_apply _ op ih
+
+/-- **signing_key_identifies_validator.** In every reachable state the key bytes `GetSigningKey` returns
+identify the validator: no two validators obtain the same key bytes for the queue's chain, under whatever
+addresses they claim.  So the `signingKey … = some sg.key` of `signature_provenance` names ONE registry entry. -/
+theorem signing_key_identifies_validator (ops : List Op) (v v' a a' k : Nat)
+    (h : signingKey (run ops).regs v a = some k) (h' : signingKey (run ops).regs v' a' = some k) : v = v' := by
+  obtain ⟨r, hr, acct, hacct, hv, hc, _, hk⟩ := signingKey_mem h
+  obtain ⟨r', hr', acct', hacct', hv', hc', _, hk'⟩ := signingKey_mem h'
+  by_cases hne : r.1 = r'.1
+  · rw [← hv, ← hv', hne]
+  · exfalso
+    exact ((registry_wellformed_all_histories ops).2 r hr r' hr' hne acct hacct acct' hacct' (by rw [hc, hc'])).2
+      (by rw [hk, hk'])
 
 /-- **sign_needs_target_chain_account** (clause 1, "the key … registered *for that chain*").  If the
 validator holds no account on the queue's own chain under the address it claims — whatever accounts,
@@ -1349,13 +1529,15 @@ registered for that chain *when it signed*" — over whole histories).  For ever
 with a batch `b` in the state reached by ANY history, the history splits as `pre ++ confirm … :: post`
 where the `confirm` carries exactly the stored validator, `EthSigner` string, signer, signed checkpoint
 and byte form, it answered `ok` in `run pre`, and in the registry of `run pre` the validator `c.val` had
-an entry `r` whose first account on the batch's chain, `acct`, denotes the same eth account as the
-stored `EthSigner` — and that account is the signer `c.by_`. -/
+an entry `r` whose first account on the batch's chain, `acct` — what the executable look-up
+`GetEthAddressByValidator` (`ethAddrOf`) returned there — denotes the same eth account as the stored
+`EthSigner` — and that account is the signer `c.by_`. -/
 theorem batch_confirm_provenance (ops : List Op) :
     ∀ b ∈ (run ops).batches, ∀ c ∈ b.confirms,
       ∃ pre post, ops = pre ++ Op.confirm b.nonce c.val c.addr c.by_ c.for_ c.wire :: post ∧
         (confirm (run pre) b.nonce c.val c.addr c.by_ c.for_ c.wire).2 = .ok ∧
         ∃ r ∈ (run pre).regs, r.1 = c.val ∧ ∃ acct, chainAccount r.2 = some acct ∧
+          ethAddrOf (run pre).regs c.val = some acct.addr ∧
           canon acct.addr = canon c.addr ∧ c.by_ = canon acct.addr := by
   induction ops using snoc_induction with
   | h0 => intro b hb; simp [run] at hb
@@ -1365,6 +1547,7 @@ theorem batch_confirm_provenance (ops : List Op) :
         ∃ pre post, ops ++ [op] = pre ++ Op.confirm b'.nonce c.val c.addr c.by_ c.for_ c.wire :: post ∧
           (confirm (run pre) b'.nonce c.val c.addr c.by_ c.for_ c.wire).2 = .ok ∧
           ∃ r ∈ (run pre).regs, r.1 = c.val ∧ ∃ acct, chainAccount r.2 = some acct ∧
+            ethAddrOf (run pre).regs c.val = some acct.addr ∧
             canon acct.addr = canon c.addr ∧ c.by_ = canon acct.addr := by
       intro b hb hn hcb
       obtain ⟨pre, post, he, hk⟩ := ih b hb c hcb
@@ -1382,7 +1565,8 @@ theorem batch_confirm_provenance (ops : List Op) :
       · exact lift b hb hn hc
       · obtain ⟨r, hr, hrv, acct, hacct, haddr⟩ := ethAddrOf_mem hreg
         rw [hn] at hop hok
-        refine ⟨ops, [], by rw [hop], hok, r, hr, hrv, acct, hacct, ?_, ?_⟩
+        refine ⟨ops, [], by rw [hop], hok, r, hr, hrv, acct, hacct, ?_, ?_, ?_⟩
+        · rw [haddr]; exact hreg
         · rw [haddr]; exact hcan
         · rw [haddr]; exact hby
 
@@ -1397,7 +1581,7 @@ theorem stored_confirm_valid_under_account_registered_when_confirmed (ops : List
         ∃ r ∈ (run pre).regs, r.1 = c.val ∧ ∃ acct, chainAccount r.2 = some acct ∧
           c.for_ = bbytes b ∧ c.by_ = canon acct.addr ∧ c.wire.bridge = true := by
   intro b hb c hc
-  obtain ⟨pre, post, he, _, r, hr, hv, acct, hacct, _, hby⟩ := batch_confirm_provenance ops b hb c hc
+  obtain ⟨pre, post, he, _, r, hr, hv, acct, hacct, _, _, hby⟩ := batch_confirm_provenance ops b hb c hc
   obtain ⟨v1, _, v3⟩ := batch_confirms_verify ops b hb c hc
   exact ⟨pre, post, he, r, hr, hv, acct, hacct, v1, hby, v3⟩
 
@@ -1529,17 +1713,105 @@ theorem core_fields_never_change (pre post : List Op) (it it' : Item) (hit : it 
         rw [run_append]; exact nextId_mono_foldl post _
       omega
 
-/-- **no_signature_survives_bytes_change** (clause 3 over whole histories: "discarded rather than
-carried over").  If between two points of a history the signing bytes of a message differ, then no
-signature stored at the earlier point is stored at the later point — however many operations lie in
-between and whatever they are. -/
+/-- **signatures_after_bytes_change** (clause 3 over whole histories: "discarded rather than carried over").
+Take the message with a given id at two points of ANY history (`run pre` and `run (pre ++ post)`; ids are
+never reused, so it is the same message).  If its signing bytes differ between the two points, then `post`
+contains an end-block step (`post = p1 ++ endBlock :: p2`) at which this message — `before`, without elected
+estimate — went through the election and came out as `mid`: estimate elected, NO signatures, and already
+with the signing bytes it has at the later point; and EVERY signature stored at the later point was added by
+a `sign` operation of `p2`, i.e. strictly after that step, which answered `ok` in the state it ran in.
+Nothing collected before the change is carried over. -/
+theorem signatures_after_bytes_change (pre post : List Op) (it it' : Item) (hit : it ∈ (run pre).queue)
+    (hit' : it' ∈ (run (pre ++ post)).queue) (hid : it'.id = it.id) (hb : bytesOf it' ≠ bytesOf it) :
+    ∃ p1 p2 before mid, post = p1 ++ Op.endBlock :: p2 ∧
+      before ∈ (run (pre ++ p1)).queue ∧ before.id = it.id ∧ before.elected = 0 ∧
+      mid ∈ (run (pre ++ p1 ++ [Op.endBlock])).queue ∧ mid.id = it.id ∧ mid.elected ≠ 0 ∧
+      mid.sigs = [] ∧ bytesOf mid = bytesOf it' ∧
+      ∀ sg ∈ it'.sigs, ∃ q1 q2, p2 = q1 ++ Op.sign it.id sg.val sg.addr sg.by_ sg.for_ sg.wire :: q2 ∧
+        (sign (run (pre ++ p1 ++ Op.endBlock :: q1)) it.id sg.val sg.addr sg.by_ sg.for_ sg.wire).2 = .ok := by
+  induction post using snoc_induction generalizing it' with
+  | h0 =>
+    rw [List.append_nil] at hit'
+    have := uniq_id (invariant_all_histories pre).2.2 hit' hit hid
+    subst this
+    exact absurd rfl hb
+  | hs post op ih =>
+    rw [← List.append_assoc, run_snoc] at hit'
+    rcases step_new (run (pre ++ post)) op it' hit' with ⟨it1, hit1, hid1⟩ | ⟨hnew, _⟩
+    · have hid1' : it1.id = it.id := by rw [hid1, hid]
+      have extend : ∀ x : Item, bytesOf x ≠ bytesOf it → bytesOf x = bytesOf it1 →
+          (∀ sg ∈ x.sigs, sg ∈ it1.sigs ∨
+            (op = Op.sign it.id sg.val sg.addr sg.by_ sg.for_ sg.wire ∧
+              (sign (run (pre ++ post)) it.id sg.val sg.addr sg.by_ sg.for_ sg.wire).2 = .ok)) →
+          ∃ p1 p2 before mid, post ++ [op] = p1 ++ Op.endBlock :: p2 ∧
+            before ∈ (run (pre ++ p1)).queue ∧ before.id = it.id ∧ before.elected = 0 ∧
+            mid ∈ (run (pre ++ p1 ++ [Op.endBlock])).queue ∧ mid.id = it.id ∧ mid.elected ≠ 0 ∧
+            mid.sigs = [] ∧ bytesOf mid = bytesOf x ∧
+            ∀ sg ∈ x.sigs, ∃ q1 q2, p2 = q1 ++ Op.sign it.id sg.val sg.addr sg.by_ sg.for_ sg.wire :: q2 ∧
+              (sign (run (pre ++ p1 ++ Op.endBlock :: q1)) it.id sg.val sg.addr sg.by_ sg.for_ sg.wire).2 = .ok := by
+        intro x hbx hbe hs
+        obtain ⟨p1, p2, before, mid, he, h1, h2, h3, h4, h5, h6, h7, h8, h9⟩ :=
+          ih it1 hit1 hid1' (by rw [← hbe]; exact hbx)
+        refine ⟨p1, p2 ++ [op], before, mid, by rw [he]; simp, h1, h2, h3, h4, h5, h6, h7, by rw [h8, hbe], ?_⟩
+        intro sg hsg
+        rcases hs sg hsg with hold | ⟨hop, hok⟩
+        · obtain ⟨q1, q2, hq, hk⟩ := h9 sg hold
+          exact ⟨q1, q2 ++ [op], by rw [hq]; simp, hk⟩
+        · refine ⟨p2, [], by rw [hop], ?_⟩
+          have : pre ++ p1 ++ Op.endBlock :: p2 = pre ++ post := by rw [he]; simp
+          rw [this]; exact hok
+      rcases step_full (run (pre ++ post)) (invariant_all_histories _) op it1 it' hit1 hit' hid1.symm with
+        heq | hs | ⟨v, a, b, f, w, key, hop, _, hok, heq⟩ | ⟨snap, hop, hsnap, heq⟩
+      · exact extend it' hb (by rw [heq]) (fun sg hsg => Or.inl (by rw [← heq]; exact hsg))
+      · exact extend it' hb (bytesOf_congr hs) (fun sg hsg => Or.inl (by rw [← hs.2.2.2]; exact hsg))
+      · refine extend it' hb (by rw [heq]; rfl) ?_
+        intro sg hsg
+        rw [heq] at hsg
+        simp only [addSig, List.mem_append, List.mem_singleton] at hsg
+        rcases hsg with hsg | rfl
+        · exact Or.inl hsg
+        · right
+          rw [← hid1']
+          exact ⟨hop, hok⟩
+      · rcases electOne_spec (run (pre ++ post)).env snap it1 with he | ⟨_, h0, g, _, hg, ⟨_, f, _, he⟩ | ⟨_, he⟩⟩
+        · rw [he] at heq
+          exact extend it' hb (by rw [heq]) (fun sg hsg => Or.inl (by rw [← heq]; exact hsg))
+        · rw [he] at heq
+          refine ⟨post, [], it1, it', by rw [hop], hit1, hid1', h0, by rw [run_snoc, ← hop]; exact hit', hid,
+            by rw [heq]; exact hg, by rw [heq], rfl, ?_⟩
+          intro sg hsg
+          rw [heq] at hsg
+          cases hsg
+        · rw [he] at heq
+          refine ⟨post, [], it1, it', by rw [hop], hit1, hid1', h0, by rw [run_snoc, ← hop]; exact hit', hid,
+            by rw [heq]; exact hg, by rw [heq], rfl, ?_⟩
+          intro sg hsg
+          rw [heq] at hsg
+          cases hsg
+    · exfalso
+      have h1 := (invariant_all_histories pre).2.2.2 it hit
+      have h2 : (run pre).nextId ≤ (run (pre ++ post)).nextId := by
+        rw [run_append]; exact nextId_mono_foldl post _
+      omega
+
+/-- **no_signature_survives_bytes_change** (corollary of `signatures_after_bytes_change`).  If between two
+points of a history the signing bytes of the message with a given id differ, then no signature stored at the
+earlier point is stored at the later point — because the list was emptied by the election step in between and
+everything in it now was signed afterwards, for the new bytes.  (The bare disjointness also follows from
+`stored_signatures_verify` alone; the theorem above is the statement about the history.) -/
 theorem no_signature_survives_bytes_change (pre post : List Op) (it it' : Item) (hit : it ∈ (run pre).queue)
-    (hit' : it' ∈ (run (pre ++ post)).queue) (hb : bytesOf it' ≠ bytesOf it) :
-    ∀ sg ∈ it.sigs, sg ∉ it'.sigs := by
-  intro sg hsg hsg'
-  have h1 := (stored_signatures_verify pre it hit sg hsg).1
-  have h2 := (stored_signatures_verify (pre ++ post) it' hit' sg hsg').1
-  exact hb (by rw [← h1, ← h2])
+    (hit' : it' ∈ (run (pre ++ post)).queue) (hid : it'.id = it.id) (hb : bytesOf it' ≠ bytesOf it) :
+    (∀ sg ∈ it.sigs, sg ∉ it'.sigs) ∧
+    ∃ p1 p2, post = p1 ++ Op.endBlock :: p2 ∧
+      ∀ sg ∈ it'.sigs, ∃ q1 q2, p2 = q1 ++ Op.sign it.id sg.val sg.addr sg.by_ sg.for_ sg.wire :: q2 := by
+  obtain ⟨p1, p2, _, _, he, _, _, _, _, _, _, _, _, h9⟩ := signatures_after_bytes_change pre post it it' hit hit' hid hb
+  refine ⟨?_, p1, p2, he, fun sg hsg => ?_⟩
+  · intro sg hsg hsg'
+    have h1 := (stored_signatures_verify pre it hit sg hsg).1
+    have h2 := (stored_signatures_verify (pre ++ post) it' hit' sg hsg').1
+    exact hb (by rw [← h1, ← h2])
+  · obtain ⟨q1, q2, hq, _⟩ := h9 sg hsg
+    exact ⟨q1, q2, hq⟩
 
 /-- **signatures_only_dropped_or_appended.** Across one operation the signature list of a message is
 unchanged, emptied, or extended by exactly one signature at the end: nothing is ever carried over in
@@ -1616,14 +1888,91 @@ theorem updateBatchGas_clears (s : State) (n g : Nat) (b : Batch) (hg : getBatch
     subst hzb
     exact absurd hn hzn
 
-/-- **no_confirm_survives_checkpoint_change** (clause 3 for batches, over whole histories). -/
+/-- **confirms_after_checkpoint_change** (clause 3 for bridge batches, over whole histories).  Take the batch
+with a given nonce at two points of ANY history (a nonce identifies one batch: `batch_nonces_unique`).  If its
+checkpoint differs between the two points, then `post` contains an `updateBatchGas` on that nonce
+(`post = p1 ++ updateBatchGas nonce g :: p2`) which found the batch without gas estimate (`before`) and
+re-issued it as `mid`: NO confirmations, and already with the checkpoint of the later point; and EVERY
+confirmation stored at the later point was added by a `confirm` operation of `p2`, strictly after the
+re-issue, which answered `ok` in the state it ran in. -/
+theorem confirms_after_checkpoint_change (pre post : List Op) (b b' : Batch) (hb : b ∈ (run pre).batches)
+    (hb' : b' ∈ (run (pre ++ post)).batches) (hn : b'.nonce = b.nonce) (hne : bbytes b' ≠ bbytes b) :
+    ∃ p1 p2 g before mid, post = p1 ++ Op.updateBatchGas b.nonce g :: p2 ∧
+      before ∈ (run (pre ++ p1)).batches ∧ before.nonce = b.nonce ∧ before.gas = 0 ∧
+      mid ∈ (run (pre ++ p1 ++ [Op.updateBatchGas b.nonce g])).batches ∧ mid.nonce = b.nonce ∧
+      mid.confirms = [] ∧ bbytes mid = bbytes b' ∧
+      ∀ c ∈ b'.confirms, ∃ q1 q2, p2 = q1 ++ Op.confirm b.nonce c.val c.addr c.by_ c.for_ c.wire :: q2 ∧
+        (confirm (run (pre ++ p1 ++ Op.updateBatchGas b.nonce g :: q1)) b.nonce c.val c.addr c.by_ c.for_ c.wire).2 = .ok := by
+  induction post using snoc_induction generalizing b' with
+  | h0 =>
+    rw [List.append_nil] at hb'
+    have := bsorted_uniq (batch_nonces_unique pre) hb' hb hn
+    subst this
+    exact absurd rfl hne
+  | hs post op ih =>
+    rw [← List.append_assoc, run_snoc] at hb'
+    have extend : ∀ b1 ∈ (run (pre ++ post)).batches, b1.nonce = b.nonce → bbytes b' = bbytes b1 →
+        (∀ c ∈ b'.confirms, c ∈ b1.confirms ∨
+          (op = Op.confirm b.nonce c.val c.addr c.by_ c.for_ c.wire ∧
+            (confirm (run (pre ++ post)) b.nonce c.val c.addr c.by_ c.for_ c.wire).2 = .ok)) →
+        ∃ p1 p2 g before mid, post ++ [op] = p1 ++ Op.updateBatchGas b.nonce g :: p2 ∧
+          before ∈ (run (pre ++ p1)).batches ∧ before.nonce = b.nonce ∧ before.gas = 0 ∧
+          mid ∈ (run (pre ++ p1 ++ [Op.updateBatchGas b.nonce g])).batches ∧ mid.nonce = b.nonce ∧
+          mid.confirms = [] ∧ bbytes mid = bbytes b' ∧
+          ∀ c ∈ b'.confirms, ∃ q1 q2, p2 = q1 ++ Op.confirm b.nonce c.val c.addr c.by_ c.for_ c.wire :: q2 ∧
+            (confirm (run (pre ++ p1 ++ Op.updateBatchGas b.nonce g :: q1)) b.nonce c.val c.addr c.by_ c.for_ c.wire).2 = .ok := by
+      intro b1 hb1 hn1 hbe hs
+      obtain ⟨p1, p2, g, before, mid, he, h1, h2, h3, h4, h5, h6, h7, h8⟩ :=
+        ih b1 hb1 hn1 (by rw [← hbe]; exact hne)
+      refine ⟨p1, p2 ++ [op], g, before, mid, by rw [he]; simp, h1, h2, h3, h4, h5, h6, by rw [h7, hbe], ?_⟩
+      intro c hc
+      rcases hs c hc with hold | ⟨hop, hok⟩
+      · obtain ⟨q1, q2, hq, hk⟩ := h8 c hold
+        exact ⟨q1, q2 ++ [op], by rw [hq]; simp, hk⟩
+      · refine ⟨p2, [], by rw [hop], ?_⟩
+        have : pre ++ p1 ++ Op.updateBatchGas b.nonce g :: p2 = pre ++ post := by rw [he]; simp
+        rw [this]; exact hok
+    rcases step_batch (run (pre ++ post)) op b' hb' with h | ⟨c0, r0, _, hfresh, _⟩ | ⟨b0, hb0, g, hop, hg0, h⟩ |
+        ⟨b0, hb0, v, a, by_, f, w, reg, hop, hok, _, _, _, h⟩
+    · exact extend b' h hn rfl (fun c hc => Or.inl hc)
+    · exfalso
+      have h1 := (batch_nonces_unique pre).2 b hb
+      have h2 : (run pre).lastNonce ≤ (run (pre ++ post)).lastNonce := by
+        rw [run_append]; exact lastNonce_mono_foldl post _
+      omega
+    · have hn0 : b0.nonce = b.nonce := by rw [← hn, h]
+      rw [hn0] at hop
+      refine ⟨post, [], g, b0, b', by rw [hop], hb0, hn0, hg0, by rw [run_snoc, ← hop]; exact hb', hn,
+        by rw [h], rfl, ?_⟩
+      intro c hc
+      rw [h] at hc
+      cases hc
+    · have hn0 : b0.nonce = b.nonce := by rw [← hn, h]; rfl
+      rw [hn0] at hop hok
+      refine extend b0 hb0 hn0 (by rw [h]; rfl) ?_
+      intro c hc
+      rw [h] at hc
+      simp only [addConfirm, List.mem_append, List.mem_singleton] at hc
+      rcases hc with hc | rfl
+      · exact Or.inl hc
+      · exact Or.inr ⟨hop, hok⟩
+
+/-- **no_confirm_survives_checkpoint_change** (corollary of `confirms_after_checkpoint_change`): no confirmation
+stored with the batch of a given nonce before its checkpoint changed is stored with it afterwards; the
+confirmations it holds afterwards were all made after the re-issue. -/
 theorem no_confirm_survives_checkpoint_change (pre post : List Op) (b b' : Batch) (hb : b ∈ (run pre).batches)
-    (hb' : b' ∈ (run (pre ++ post)).batches) (hne : bbytes b' ≠ bbytes b) :
-    ∀ c ∈ b.confirms, c ∉ b'.confirms := by
-  intro c hc hc'
-  have h1 := (batch_confirms_verify pre b hb c hc).1
-  have h2 := (batch_confirms_verify (pre ++ post) b' hb' c hc').1
-  exact hne (by rw [← h1, ← h2])
+    (hb' : b' ∈ (run (pre ++ post)).batches) (hn : b'.nonce = b.nonce) (hne : bbytes b' ≠ bbytes b) :
+    (∀ c ∈ b.confirms, c ∉ b'.confirms) ∧
+    ∃ p1 p2 g, post = p1 ++ Op.updateBatchGas b.nonce g :: p2 ∧
+      ∀ c ∈ b'.confirms, ∃ q1 q2, p2 = q1 ++ Op.confirm b.nonce c.val c.addr c.by_ c.for_ c.wire :: q2 := by
+  obtain ⟨p1, p2, g, _, _, he, _, _, _, _, _, _, _, h8⟩ := confirms_after_checkpoint_change pre post b b' hb hb' hn hne
+  refine ⟨?_, p1, p2, g, he, fun c hc => ?_⟩
+  · intro c hc hc'
+    have h1 := (batch_confirms_verify pre b hb c hc).1
+    have h2 := (batch_confirms_verify (pre ++ post) b' hb' c hc').1
+    exact hne (by rw [← h1, ← h2])
+  · obtain ⟨q1, q2, hq, _⟩ := h8 c hc
+    exact ⟨q1, q2, hq⟩
 
 /-- **addEstimate_rejected_is_noop** (error branches: unknown message, value 0, estimation not required,
 second estimate by the same validator). -/
@@ -1804,5 +2153,82 @@ example : (sign (run demo) 9 1 4 1 demoBytes0).2 = .notFound ∧ (sign (run demo
 example : (confirm (run batchTakeover) 8 1 12 3 demoBB).2 = .notFound ∧ (confirm (run batchTakeover) 9 3 12 3 demoBB).2 = .noAddr ∧
     (confirm (run batchTakeover) 9 2 8 2 demoBB).2 = .mismatch ∧ (confirm (run batchTakeover) 9 2 4 2 demoBB).2 = .badSig ∧
     (confirm (run batchTakeover) 9 1 12 3 demoBB).2 = .dup ∧ (confirm (run batchTakeover) 9 2 4 1 demoBB).2 = .dupKey := by decide
+
+/-! ### signing before the election (what the stored signatures are signatures OF while nothing is elected)
+
+`AddMessageSignature` / `ConfirmBatch` have no "estimate elected" gate, and `GetMessagesForSigning` has no
+`HasGasEstimate` filter (x/consensus/keeper/concensus_keeper.go): validators sign a message as soon as it is
+queued.  C06 is not violated by that — the election discards those signatures (`signatures_after_bytes_change`) —
+but what they sign before the election is the DEFAULT value (gas 300000 / fees 100000×3), which nobody
+elected.  C05 records the consequence for the remote contract (`Props/C05.lean`,
+`elected_estimate_clause_false_before_election`). -/
+
+/-- **signatures_before_election_sign_the_defaults.** In every reachable state, the signatures kept with a
+message whose estimate is not elected yet are signatures over the default gas estimate 300000
+(UpdateValset / CompassHandover) resp. over the default fee triple 100000 (fee-paying actions without
+attached fees) — the values `Keccak256WithSignedMessage` substitutes, not elected ones. -/
+theorem signatures_before_election_sign_the_defaults (ops : List Op) :
+    ∀ it ∈ (run ops).queue, it.elected = 0 → ∀ sg ∈ it.sigs,
+      (it.kind.feePayer = false → sg.for_.gas = defaultGas) ∧
+      (it.kind.feePayer = true → it.fees = none →
+        sg.for_.fr = defaultFee ∧ sg.for_.fc = defaultFee ∧ sg.for_.fs = defaultFee) := by
+  intro it hit h0 sg hsg
+  have h := (stored_signatures_verify ops it hit sg hsg).1
+  constructor
+  · intro hk; rw [h]; unfold bytesOf; simp [hk, h0]
+  · intro hk hf; rw [h]; unfold bytesOf; simp [hk, hf]
+
+/-- the same for bridge batches: confirmations kept with a batch without gas estimate confirm the
+checkpoint over the default estimate 300000 -/
+theorem confirms_before_estimate_confirm_the_default (ops : List Op) :
+    ∀ b ∈ (run ops).batches, b.gas = 0 → ∀ c ∈ b.confirms, c.for_.gas = defaultGas := by
+  intro b hb h0 c hc
+  rw [(batch_confirms_verify ops b hb c hc).1]
+  unfold bbytes
+  simp [h0]
+
+def envSBE : Env :=
+  { snapshot := some { vals := [⟨1, 5, [⟨0, 4, 4, false⟩]⟩, ⟨2, 5, [⟨0, 8, 8, false⟩]⟩, ⟨3, 5, [⟨0, 12, 12, false⟩]⟩], total := 15 },
+    metrics := [(1, ⟨P, P, 0, 0⟩)], fees := [(1, 1100000000000000000)],
+    community := 30000000000000000, security := 10000000000000000 }
+
+/-- a validator-set update enters through the relayer pick (estimation required), validator 1 signs it at once -/
+def signBeforeElection : List Op :=
+  [ .setEnv envSBE, .register 1 [⟨0, 4, 4, false⟩], .enqueue .valset 3 0 false 0,
+    .sign 1 1 4 1 ⟨.valset, 3, 0, 300000, 0, 0, 0, 1⟩ ]
+
+/-- **unelected_message_is_signable** (reachability; non-vacuity of the two theorems above).  Through `run` from
+the initial state: the update requires estimation, nothing is elected, it is offered to NOBODY — and it already
+holds a signature, over gas 300000.  After the election (here of 21000) that signature is gone and the bytes
+carry 21000; if the election yields exactly 300000 the bytes do not change at all, the signature list is
+emptied all the same, and the very same signature bytes are accepted again. -/
+theorem unelected_message_is_signable :
+    ((run signBeforeElection).queue.map fun it =>
+        (it.kind, it.reqEst, it.elected, it.sigs.map fun g => (g.val, g.for_.gas))) = [(.valset, true, 0, [(1, 300000)])] ∧
+    offered (run signBeforeElection).queue 1 = [] ∧
+    ((run (signBeforeElection ++ [.addEstimate 1 1 21000, .addEstimate 1 2 21000, .endBlock])).queue.map fun it =>
+        (it.elected, it.sigs.length, (bytesOf it).gas)) = [(21000, 0, 21000)] ∧
+    ((run (signBeforeElection ++ [.addEstimate 1 1 300000, .addEstimate 1 2 300000, .endBlock])).queue.map fun it =>
+        (it.elected, it.sigs.length, (bytesOf it).gas)) = [(300000, 0, 300000)] ∧
+    (sign (run (signBeforeElection ++ [.addEstimate 1 1 300000, .addEstimate 1 2 300000, .endBlock])) 1 1 4 1
+        ⟨.valset, 3, 0, 300000, 0, 0, 0, 1⟩).2 = .ok := by decide
+
+/-! ### history-level discard (non-vacuity of `signatures_after_bytes_change` / `confirms_after_checkpoint_change`) -/
+
+-- `demo` holds two signatures over `demoBytes0`; after `endBlock` the bytes are `demoBytes1`; validator 1 signs again:
+-- the hypotheses of `signatures_after_bytes_change` hold with `pre = demo`, `post = [endBlock, sign …]`
+example : ((run demo).queue.map fun it => (it.id, bytesOf it, it.sigs.length)) = [(1, demoBytes0, 2)] ∧
+    ((run (demo ++ [.endBlock, .sign 1 1 4 1 demoBytes1])).queue.map fun it => (it.id, bytesOf it, it.sigs.map (·.val))) =
+      [(1, demoBytes1, [1])] := by decide
+
+-- batch 9 of `batchTakeover` holds one confirmation over gas 300000; re-issue with gas 21000, validator 2 confirms
+example : ((run batchTakeover).batches.map fun b => (b.nonce, (bbytes b).gas, b.confirms.length)) = [(9, 300000, 1)] ∧
+    ((run (batchTakeover ++ [.updateBatchGas 9 21000, .confirm 9 2 4 1 { demoBB with gas := 21000 }])).batches.map
+      fun b => (b.nonce, (bbytes b).gas, b.confirms.map (·.val))) = [(9, 21000, [2])] := by decide
+
+-- the registry invariant is not vacuous: after `batchTakeover` two validators hold accounts, keys pairwise distinct
+example : (run batchTakeover).regs = [(1, [⟨0, 12, 12, false⟩]), (2, [⟨0, 4, 4, false⟩])] := by decide
+-- a colliding registration (validator 3 claims validator 2's key bytes under another address) is refused
+example : (register (run batchTakeover) 3 [⟨0, 16, 4, false⟩]).2 = false := by decide
 
 end Paloma.Queue
